@@ -195,6 +195,28 @@ pub fn c12_workloads(thorough: bool) -> Vec<(Workload, usize)> {
         w.closes = vec![(A, 0, 150), (B, 2, 200), (A, 1, 500), (B, 1, 500)];
         v.push((w, 1));
     }
+    // ... and the survivor is an ORDERED channel that has already used several stream sequence
+    // numbers in both directions when two OTHER channels are closed (one by each side): its
+    // numbering and the peer's ordering state must survive the other streams' resets
+    {
+        let cs = vec![chan(0, true, None, None, true), chan(1, true, None, None, true), chan(2, true, None, None, false), chan(3, false, None, None, true)];
+        let mut msgs = vec![];
+        for i in 0..3u64 {
+            msgs.push(m(A, 0, 0, i * 20, 20 + i as usize));
+            msgs.push(m(B, 0, 0, 10 + i * 20, 40 + i as usize));
+        }
+        msgs.push(m(A, 1, 0, 5, 12));
+        msgs.push(m(B, 2, 0, 60, 13));
+        msgs.push(m(A, 3, 0, 15, 14));
+        for i in 0..3u64 {
+            msgs.push(m(A, 0, 0, 400 + i * 20, 60 + i as usize));
+            msgs.push(m(B, 0, 0, 410 + i * 20, 80 + i as usize));
+            msgs.push(m(B, 3, 0, 405 + i * 20, 90 + i as usize));
+        }
+        let mut w = wl("K2-close-others-ordered-survivor", cs, msgs);
+        w.closes = vec![(A, 1, 150), (B, 2, 250)];
+        v.push((w, 1));
+    }
     // early send before Open, ordered reliable + unordered
     {
         let cs = vec![chan(0, true, None, None, true), chan(1, false, None, None, true)];
